@@ -117,7 +117,8 @@ def run(ctx, col: Collector):
     def children_through_dispatcher():
         """The required-attribute check lives in the dispatcher, so a container must render the child elements that have required attributes (enum items,
         columns, indexes) THROUGH it; formatting a child's attributes by hand skips the check and writes `None` into the script."""
-        from .common import collect_filters, annotation_element_classes
+        from .common import collect_filters, annotation_element_classes, expanded
+        from ..strctx import ANCHOR_HELPERS
         rc = idx.cls('pydbml.renderer.sql.default.renderer', 'DefaultSQLRenderer')
         sqlreg = idx.registry.get(rc.id, {})
         required: Dict[str, List[str]] = {}
@@ -148,7 +149,9 @@ def run(ctx, col: Collector):
                     if fi.module not in mods or not isinstance(fi.node, ast.FunctionDef) or not fi.node.args.args:
                         continue
                     p0 = fi.node.args.args[0].arg
-                    for flt in collect_filters(fi.node):
+                    # read with the helpers it calls expanded in place (a generator of the body elements, a per-line helper)
+                    fx = expanded(ctx, fi.module, fi.qualname, keep_extra=tuple(sorted(ANCHOR_HELPERS - {'create_body', 'create_components'})))
+                    for flt in collect_filters(fx.node):
                         if flt['iter'] != f'{p0}.{coll}':
                             continue
                         v = flt['var']
